@@ -150,8 +150,17 @@ def path_matching_variant(indel):
            "walkv(accessor, dna_sequence[occur_location + 1:], previous_index, len(dna_sequence) - occur_location - 1) >= 0))")
     walk_inv = lambda suffix: {
         "on-the-walk": "vertex_index == walkv(accessor, " + suffix + ", v1, _i) and 0 <= vertex_index and vertex_index < ipow(4, k) and reliable"}
+    exact = ("if not reliable:\n"
+             "    walk_dead(A2(accessor), A(sfx), P(sfx, 0), v1, _i + 1, len(sfx))\n"
+             "assert reliable == (walkv(accessor, sfx, v1, len(sfx)) >= 0), 'the-decision-is-exact'")
     ghost = {"entry": "ipow_mono(4, 0, k)",
-             "before_loop2": "v1 = vertex_index", "before_loop4": "v1 = vertex_index", "before_loop5": "v1 = vertex_index",
+             # completeness of the candidate enumeration: every live arc of the previous vertex is tried (as a substitution unless it is the original, as an insertion)
+             "after_assign:used_indices": "assert forall(lambda c: implies(accessor[previous_index][c] >= 0, exists(lambda i: used_indices[i] == c, 0, len(used_indices))), 0, 4), "
+                                          "'every-live-arc-is-a-candidate'",
+             "before_loop2": "v1 = vertex_index\nsfx = dna_sequence[occur_location + 1:]",
+             "before_loop4": "v1 = vertex_index\nsfx = dna_sequence[occur_location:]",
+             "before_loop5": "v1 = vertex_index\nsfx = dna_sequence[occur_location + 1:]",
+             "after_loop2": exact, "after_loop4": exact, "after_loop5": exact,
              "loop2_begin": "mark(code(nucleotide))\n" + "".join("if accessor[vertex_index][%d] >= 0:\n    pass\n" % j for j in range(4)),
              "loop4_begin": "mark(code(nucleotide))\n" + "".join("if accessor[vertex_index][%d] >= 0:\n    pass\n" % j for j in range(4)),
              "loop5_begin": "mark(code(nucleotide))\n" + "".join("if accessor[vertex_index][%d] >= 0:\n    pass\n" % j for j in range(4))}
